@@ -57,6 +57,19 @@ func runReadCut() ([]rcFailure, error) {
 // are not attributed to a new obligation failure; only new failing inputs confirm.
 func replayReadCut(c *Ctx, items []*Item) map[string]*ReplayOutcome {
 	res := map[string]*ReplayOutcome{}
+	// read-from-string has its own oracle (the window read on its own)
+	var other []*Item
+	for _, it := range items {
+		if it.Root == "cl.(*ReadFromString).Call" {
+			res[it.Name] = replayRFS(c)
+		} else {
+			other = append(other, it)
+		}
+	}
+	items = other
+	if len(items) == 0 {
+		return res
+	}
 	fails, err := runReadCut()
 	if err != nil {
 		c.Notes = append(c.Notes, "readcut harness: "+err.Error())
@@ -88,4 +101,39 @@ func replayReadCut(c *Ctx, items []*Item) map[string]*ReplayOutcome {
 		res[it.Name] = oc
 	}
 	return res
+}
+
+var rfsOnce *ReplayOutcome
+
+func replayRFS(c *Ctx) *ReplayOutcome {
+	if rfsOnce != nil {
+		return rfsOnce
+	}
+	oc := &ReplayOutcome{Harness: "rfs"}
+	rfsOnce = oc
+	bin, err := buildHarness("rfs")
+	if err != nil {
+		return oc
+	}
+	scratch, _ := os.MkdirTemp("", "slipvc-rfs-")
+	defer os.RemoveAll(scratch)
+	cmd := exec.Command(bin)
+	cmd.Dir = scratch
+	out, err := cmd.Output()
+	if err != nil {
+		c.Notes = append(c.Notes, "rfs harness: "+err.Error())
+		return oc
+	}
+	var r struct {
+		Failures []struct{ Input, Observed, Expected string } `json:"failures"`
+	}
+	if json.Unmarshal(out, &r) != nil {
+		return oc
+	}
+	oc.Ran = true
+	if len(r.Failures) > 0 {
+		oc.Failed, oc.Input, oc.Observed, oc.Expected = true, r.Failures[0].Input, r.Failures[0].Observed, r.Failures[0].Expected
+		oc.Class = "read-from-string with :start / :end returns a position that is not the window's own result moved by start"
+	}
+	return oc
 }
